@@ -126,9 +126,13 @@ package core
 //@     invariant 0 <= len(data) && len(data) <= n
 //@     decreases n - len(data)
 
+// (C04) an /Extends entry in the form the parser yields it (an IndirectRef value) is accepted and recorded; the stream
+// is refused for its /Extends only when that entry is no reference at all
 //@ func NewObjectStream results (os, err)
-//@   property C02
+//@   property C02, C04
 //@   ensures well_formed: !err ==> os.first >= 0 && os.n >= 0
+//@   ensures parsed_extends_reference_is_recorded: !err && !isnil(stream) && istype(stream.Dict.Get("Extends"), IndirectRef) ==> !isnil(os.extends) && os.extends.Number == astype(stream.Dict.Get("Extends"), IndirectRef).Number
+//@   atreturn#10 refused_only_when_extends_is_no_reference: !istype(extendsObj, IndirectRef)
 
 // ---- C02: the document parser makes progress or stops ----
 //
